@@ -83,7 +83,8 @@ def _child_setup(scratch, cpu, mem_gb, quiet):
     os.environ["TMPDIR"] = scratch
     tempfile.tempdir = scratch
     if cpu:
-        resource.setrlimit(resource.RLIMIT_CPU, (int(cpu), int(cpu) + 2))
+        resource.setrlimit(resource.RLIMIT_CPU, (int(cpu), int(cpu) + 3))
+        signal.signal(signal.SIGXCPU, _on_alarm)      # soft limit: raise inside the tool so that the stack is reported
     if mem_gb:
         lim = int(mem_gb * (1 << 30))
         resource.setrlimit(resource.RLIMIT_AS, (lim, lim))
@@ -123,6 +124,9 @@ def call(fn, *args, cpu=60, mem_gb=6, wall=None, quiet=True):
             _child_setup(scratch, cpu, mem_gb, quiet)
             try:
                 val = ("ok", fn(*args))
+            except CaseTimeout as e:
+                tb = traceback.extract_tb(e.__traceback__)
+                val = ("cputime", [(f.filename, f.lineno, f.name) for f in tb][-60:])
             except SystemExit as e:
                 val = ("exit", e.code)
             except BaseException as e:  # noqa
@@ -173,6 +177,8 @@ def call(fn, *args, cpu=60, mem_gb=6, wall=None, quiet=True):
         return Result("ok", val, None, cpu_s)
     if kind == "exit":
         return Result("ok", None, "exit %r" % (val,), cpu_s)
+    if kind == "cputime":
+        return Result("timeout", None, ("CPU budget (RLIMIT_CPU soft limit)", val), cpu_s)
     return Result("exc", None, val, cpu_s)
 
 
@@ -265,8 +271,10 @@ def local(fn, *args, timeout=20, reset=True):
             val = fn(*args)
             signal.setitimer(signal.ITIMER_REAL, 0)
             return Result("ok", val, None, time.process_time() - t0)
-        except CaseTimeout:
-            return Result("timeout", None, "in-process soft timeout %ss" % timeout, time.process_time() - t0)
+        except CaseTimeout as e:
+            tb = traceback.extract_tb(e.__traceback__)
+            return Result("timeout", None, ("in-process soft timeout %ss" % timeout, [(f.filename, f.lineno, f.name) for f in tb][-60:]),
+                          time.process_time() - t0)
         except SystemExit as e:
             return Result("ok", None, "exit %r" % (e.code,), time.process_time() - t0)
         except BaseException as e:  # noqa
@@ -324,6 +332,8 @@ def gasol_main(argv, inputs, want, capture=True):
             gasol_asm.main_gasol()
         except SystemExit as e:
             code = e.code if isinstance(e.code, int) else (0 if e.code is None else 1)
+        except CaseTimeout:
+            raise                      # budget hits are reported by the caller with the stack they interrupted
         except BaseException as e:  # noqa
             code = 1
             tb = traceback.extract_tb(e.__traceback__)
